@@ -418,3 +418,230 @@ def kind_hist(specs):
     for s in specs:
         walk(s)
     return h
+
+
+# ===================================================================== extension: identity, globals, numpy
+DTYPES = [("u1", 1), ("i1", 1), ("<i4", 4), (">i2", 2), ("<f8", 8), ("?", 1), ("<U1", 4), ("S2", 2),
+          ([["a", "<i2"], ["b", "u1"]], 3)]
+SHAPES = [[], [0], [1], [3], [2, 3], [3, 2], [1, 3], [3, 1], [2, 0], [2, 3, 2], [2, 1, 2], [4]]
+LAYOUTS = ["C", "C", "F", "T", "slice", "bcast", "neg"]
+GLOB_NAMES = ["int", "join", "OrderedDict", "main_fn", "MainCls", "ndarray", "json.dumps", "Sub"]   # python functions / classes only:
+# builtin functions (len, pickle.dump) are bound methods of their module for Hasher.save -> _MyHash, outside the model
+
+
+def arr_spec(rng, dtype=None, shape=None, layout=None, klass=None, data=None):
+    dt, isz = dtype if dtype is not None else rng.choice(DTYPES)
+    shape = list(shape if shape is not None else rng.choice(SHAPES))
+    n = 1
+    for s in shape:
+        n *= s
+    if data is None:
+        if dt == "?":
+            data = bytes(rng.choice([0, 1]) for _ in range(n))
+        elif dt == "<U1":
+            data = b"".join(bytes([rng.choice([0, 97, 98, 233]), 0, 0, 0]) for _ in range(n))
+        else:
+            data = bytes(rng.choice([0, 1, 2, 127, 128, 255]) for _ in range(n * isz))
+    layout = layout or rng.choice(LAYOUTS)
+    if not shape and layout == "slice":
+        layout = "C"            # indexing a 0-d array yields a numpy scalar, not an array
+    klass = klass or rng.choice(["ndarray", "ndarray", "ndarray", "memmap", "sub"])
+    if klass == "memmap" and n == 0:
+        klass = "ndarray"
+    if klass == "memmap" and layout not in ("C", "T"):
+        layout = "C"
+    return ["arr", {"dtype": dt, "shape": shape, "data": bytes(data).hex(), "layout": layout, "klass": klass}]
+
+
+class _Ids(object):
+    def __init__(self):
+        self.n = 0
+        self.registered = []     # (id, kind) usable as a reference target at this point of the traversal
+
+    def fresh(self):
+        self.n += 1
+        return self.n
+
+
+def gen_x(rng, depth, ids, with_np=True):
+    r = rng.random()
+    if ids.registered and r < 0.22:
+        return ["ref", rng.choice(ids.registered)[0]]
+    if depth <= 0 or r < 0.45:
+        c = rng.random()
+        if with_np and c < 0.35:
+            return arr_spec(rng)
+        if c < 0.5:
+            return ["glob", rng.choice(GLOB_NAMES)]
+        return ["leaf", gen_value(rng, 1)]
+    kind = rng.choice(["T", "T", "L", "D"])
+    i = ids.fresh()
+    n = rng.choice([0, 1, 2, 2, 3, 4, 5])
+    if kind == "T":
+        ch = [gen_x(rng, depth - 1, ids, with_np) for _ in range(n)]
+        if ch:
+            ids.registered.append((i, "T"))      # a tuple is memoised after its items; () never
+        return ["T", i, ch]
+    ids.registered.append((i, kind))              # lists / dicts are memoised before their items
+    if kind == "L":
+        return ["L", i, [gen_x(rng, depth - 1, ids, with_np) for _ in range(n)]]
+    fam = rng.choice(["int", "str", "bytes", "tuple_int", "num"])
+    ks = gen_keys(rng, fam, n)
+    return ["D", i, [[k, gen_x(rng, depth - 1, ids, with_np)] for k in ks]]
+
+
+def x_special(rng):
+    t = ["T", 1, [["leaf", I(1)], ["leaf", I(2)]]]
+    out = [
+        ["L", 9, [t, ["ref", 1]]],                                   # F17 witness: one tuple twice
+        ["L", 9, [t, ["T", 2, [["leaf", I(1)], ["leaf", I(2)]]]]],   # ... vs two equal tuples
+        ["D", 9, [[S("a"), t], [S("b"), ["ref", 1]]]],
+        ["T", 9, [t, ["L", 3, [["ref", 1]]]]],
+        ["L", 1, [["ref", 1]]],                                      # recursive list
+        ["D", 1, [[I(0), ["ref", 1]]]],                              # recursive dict
+        ["L", 9, [["L", 1, []], ["ref", 1], ["ref", 1]]],
+        ["T", 9, [["T", 1, [["leaf", I(i)] for i in range(5)]], ["ref", 1]]],
+        ["L", 9, [["T", 5, []], ["T", 6, []]]],
+        ["L", 9, [["L", 100 + i, []] for i in range(300)] + [["ref", 100], ["ref", 370], ["ref", 399]]],
+        ["L", 9, [["glob", "join"], ["glob", "join"], ["glob", "int"]]],
+        ["T", 9, [["glob", "main_fn"], ["glob", "MainCls"], ["glob", "join"], ["glob", "main_fn"]]],
+        ["D", 9, [[S("f"), ["glob", "main_fn"]], [S("g"), ["glob", "json.dumps"]]]],
+        ["L", 9, [["leaf", E([I(1)])], ["glob", "Sub"], ["leaf", Z([I(2)])], ["leaf", E([I(3)])]]],
+    ]
+    a = arr_spec(rng, ("u1", 1), [3], "C", "ndarray", bytes([1, 2, 3]))
+    b = arr_spec(rng, ("<i4", 4), [2, 3], "F", "ndarray")
+    out += [a, b, ["L", 9, [a, a, b]], ["T", 9, [a]], ["D", 9, [[S("x"), a], [S("y"), b]]],
+            ["L", 9, [["leaf", L([I(1)])], a, ["leaf", T([I(2)])], b, ["ref", 9]]]]
+    for dt in DTYPES:
+        for sh in ([], [0], [3], [2, 3]):
+            out.append(arr_spec(rng, dt, sh, "C", "ndarray"))
+    for sh in SHAPES:
+        for lay in ("C", "F", "T", "slice", "bcast", "neg"):
+            out.append(arr_spec(rng, ("<i4", 4), sh, lay, "ndarray"))
+    for k in ("memmap", "sub"):
+        for lay in ("C", "T"):
+            out.append(arr_spec(rng, (">i2", 2), [2, 3], lay, k))
+    return out
+
+
+def xcases(rng, n_random):
+    cases = []
+    for x in x_special(rng):
+        cases.append({"x": x, "coerce": False})
+        if x[0] == "arr" and x[1]["klass"] != "ndarray":
+            cases.append({"x": x, "coerce": True})
+    mm = arr_spec(rng, ("u1", 1), [4], "C", "memmap")
+    cases += [{"x": ["L", 9, [mm, arr_spec(rng, ("u1", 1), [4], "C", "ndarray")]], "coerce": True},
+              {"x": ["L", 9, [mm, arr_spec(rng, ("u1", 1), [4], "C", "ndarray")]], "coerce": False}]
+    for _ in range(n_random):
+        cases.append({"x": gen_x(rng, 3, _Ids()), "coerce": rng.random() < 0.3})
+    return cases
+
+
+def unshare(x):
+    """the same structure built from fresh objects only (references replaced by copies)"""
+    defs = {}
+    counter = [10 ** 6]
+
+    def collect(y):
+        if y[0] in ("T", "L"):
+            defs[y[1]] = y
+            for c in y[2]:
+                collect(c)
+        elif y[0] == "D":
+            defs[y[1]] = y
+            for _, c in y[2]:
+                collect(c)
+    collect(x)
+
+    def copy(y, stack):
+        counter[0] += 1
+        i = counter[0]
+        if y[0] == "ref":
+            if y[1] in stack:
+                return None              # recursive reference: no finite unshared counterpart
+            return copy(defs[y[1]], stack)
+        if y[0] in ("T", "L"):
+            ch = [copy(c, stack + [y[1]]) for c in y[2]]
+            return None if any(c is None for c in ch) else [y[0], i, ch]
+        if y[0] == "D":
+            ch = [[k, copy(c, stack + [y[1]])] for k, c in y[2]]
+            return None if any(c is None for _, c in ch) else ["D", i, ch]
+        return y
+    return copy(x, [])
+
+
+def ref_kinds(x):
+    """kinds ('T' / 'L' / 'D') of the objects that occur more than once"""
+    kinds = {}
+    out = set()
+
+    def walk(y):
+        if y[0] in ("T", "L", "D"):
+            kinds[y[1]] = y[0]
+            for c in (y[2] if y[0] != "D" else [c for _, c in y[2]]):
+                walk(c)
+        elif y[0] == "ref":
+            out.add(kinds.get(y[1], "?"))
+    walk(x)
+    return out
+
+
+def _bl(hexs):
+    return _zl(bytes.fromhex(hexs))
+
+
+def coq_xvalue(d, defs=None, stack=()):
+    """Gallina xvalue from the description returned by c08x_impl.py.  Every occurrence of a shared object
+    carries its full definition (the model looks the id up in the memo first, so whichever occurrence the
+    traversal -- e.g. the sorted order of a dict -- reaches first is the one that gets encoded); only a
+    reference to an object that is still being built (a cycle) is a stub."""
+    if defs is None:
+        defs = {}
+
+        def collect(y):
+            if y[0] in ("T", "L"):
+                defs[y[1]] = y
+                for c in y[2]:
+                    collect(c)
+            elif y[0] == "D":
+                defs[y[1]] = y
+                for _, c in y[2]:
+                    collect(c)
+        collect(d)
+    t = d[0]
+    if t == "leaf":
+        return "(XLeaf %s)" % coq_value(d[1])
+    if t == "glob":
+        return "(XGlobal %s)" % _bl(d[1])
+    if t == "arr":
+        a = d[1]
+        raw = bytes.fromhex(a["elems"])
+        isz = a["itemsize"]
+        elems = [raw[i:i + isz] for i in range(0, len(raw), isz)] if isz else []
+        return ("(XArr {| a_klass := %s; a_is_memmap := %s; a_dtype_pickle := %s; a_shape := [%s]; a_strides := [%s]; "
+                "a_cflag := %s; a_fflag := %s; a_elems := [%s] |})"
+                % (_bl(a["klass"]), "true" if a["is_memmap"] else "false", _bl(a["dtype_pickle"]),
+                   "; ".join("(%d)" % s for s in a["shape"]), "; ".join("(%d)" % s for s in a["strides"]),
+                   "true" if a["cflag"] else "false", "true" if a["fflag"] else "false",
+                   "; ".join(_zl(e) for e in elems)))
+    if t == "ref":
+        if d[1] in stack:
+            return {"T": "(XTuple (%d) [])", "L": "(XList (%d) [])", "D": "(XDict (%d) [])"}[d[2]] % d[1]
+        return coq_xvalue(defs[d[1]], defs, stack)
+    st = stack + (d[1],)
+    if t in ("T", "L"):
+        return "(%s (%d) [%s])" % ("XTuple" if t == "T" else "XList", d[1], "; ".join(coq_xvalue(c, defs, st) for c in d[2]))
+    if t == "D":
+        return "(XDict (%d) [%s])" % (d[1], "; ".join("(%s, %s)" % (coq_value(k), coq_xvalue(c, defs, st)) for k, c in d[2]))
+    raise ValueError(d)
+
+
+def x_has(d, kind):
+    if d[0] == kind:
+        return True
+    if d[0] in ("T", "L"):
+        return any(x_has(c, kind) for c in d[2])
+    if d[0] == "D":
+        return any(x_has(c, kind) for _, c in d[2])
+    return False
